@@ -59,11 +59,14 @@ impl<'a> OpenResponsesSsePipe<'a> {
 // bytes -> decoder text: whatever the chunking of the body, the decoder receives the lossy decoding of the bytes (an incomplete
 // trailing sequence waits in the buffer), so parsed events cannot depend on where the transport split the stream
 fn bytes_clause() {
-    let tokens: [&[u8]; 10] = [b"a", "\u{e9}".as_bytes(), "\u{20ac}".as_bytes(), "\u{1f600}".as_bytes(), &[0xFF], &[0x80], &[0xC3], &[0xE2, 0x82], &[0xF0, 0x9F, 0x98], b"e"];
+    let tokens: [&[u8]; 11] = ["\u{feff}".as_bytes(), b"a", "\u{e9}".as_bytes(), "\u{20ac}".as_bytes(), "\u{1f600}".as_bytes(), &[0xFF], &[0x80], &[0xC3], &[0xE2, 0x82], &[0xF0, 0x9F, 0x98], b"e"];
     for n in 0..=3usize { for code in 0..tokens.len().pow(n as u32) {
         let mut c = code; let mut body: Vec<u8> = Vec::new();
         for _ in 0..n { body.extend_from_slice(tokens[c % tokens.len()]); c /= tokens.len(); }
-        let whole = String::from_utf8_lossy(&body).into_owned();
+        // the reference is what the real code hands to the decoder when the body arrives in one piece (mask 0 comes first); every other
+        // chunking must give the same text. (Until the second build session the reference was the lossy decoding of the body itself,
+        // which would also have flagged a decoder-side normalisation that is applied consistently - more than the property asks.)
+        let mut whole = String::new();
         let cuts = body.len().saturating_sub(1);
         for mask in 0..(1usize << cuts) {
             TEXT.with(|t| t.borrow_mut().clear()); FIN.with(|f| f.borrow_mut().clear());
@@ -78,8 +81,9 @@ fn bytes_clause() {
             let text = TEXT.with(|t| t.borrow().clone());
             let tail_ok = buf.is_empty() || matches!(std::str::from_utf8(&buf), Err(e) if e.valid_up_to() == 0 && e.error_len().is_none());
             let joined = format!("{}{}", text, String::from_utf8_lossy(&buf));
+            if mask == 0 { whole = joined.clone(); }
             if !tail_ok || joined != whole {
-                println!("WITNESS {{\"function\": \"OpenResponsesSsePipe::push_bytes\", \"body_bytes\": {:?}, \"chunks\": {:?}, \"text_given_to_the_decoder\": {:?}, \"bytes_left_in_buffer\": {:?}, \"lossy_decoding_of_the_body\": {:?}, \"problem\": \"the text reaching the SSE decoder depends on how the transport chunked the body\"}}",
+                println!("WITNESS {{\"function\": \"OpenResponsesSsePipe::push_bytes\", \"body_bytes\": {:?}, \"chunks\": {:?}, \"text_given_to_the_decoder\": {:?}, \"bytes_left_in_buffer\": {:?}, \"text_when_the_body_arrives_in_one_piece\": {:?}, \"problem\": \"the text reaching the SSE decoder depends on how the transport chunked the body\"}}",
                     body, chunks, text, buf, whole);
                 return;
             }
